@@ -45,8 +45,12 @@ def make_case(rng, texts, accepted):
         prog = g.program()
         src, _ = emit_program(prog["main"])
         return ("core", src, "", False, None, sorted(g.kinds))
+    if x < 0.86:
+        # small programs that use one name in many roles; the rejected ones are C07's business, the accepted ones must compile and run
+        from .c07 import gen_semantic_soup
+        return ("semantic", gen_semantic_soup(rng), "1\n2\n", False, None, [])
     fg = FullGen(rng)
-    if x < 0.85:
+    if x < 0.93:
         return ("corpus", rng.choice(accepted), fg.stdin_bytes(), True, None, [])
     return ("corpus_mutation", mutate_expr(rng, rng.choice(accepted)), fg.stdin_bytes(), True, None, [])
 
